@@ -656,7 +656,7 @@ theorem handleDo_node (pre : Predef) (env : Env V) (n : Node J V) (spec : Spec) 
       · rfl
       · exact (finishDo_calls ..).2.1
 
-theorem readFailed_node (pre : Predef) (n : Node J V) (mod : Module J V) (p : Param J V) (e : Err)
+theorem readFailed_node (pre : Predef) (n : Node J V) (mod : Module J V) (p : Param J V) (e : Node.Err)
     (calls : List (DriverCall V)) : NodeStep n (readFailed pre n mod p e calls).node := by
   unfold readFailed; split
   · exact Or.inl rfl
